@@ -4,7 +4,11 @@
      tgs <old> <new>                        -> M <n> (<i>,<j>)* | PANIC | FUEL   (on lines old / lines new)
      tgsok <old> <new>                      -> true|false
      holds <old> <new>                      -> true|false   (C08_holds_on)
-     consts                                 -> C <ctxC> <hex of no_newline_msg> *)
+     consts                                 -> C <ctxC> <hex of no_newline_msg>
+     patch <oldName> <newName> <out> <old> <new> -> true|false: the Coq-side reader and patch applier
+                                               (patch_bytes / unpatch_bytes of the END-TO-END theorem) on the
+                                               given bytes turn lines old into lines new and back
+     linesgo <text>                         -> L <n> <hex>* | PANIC | FUEL   (the statement-level lines) *)
 let show_res f = function Ok a -> f a | Panic -> "PANIC" | OutOfFuel -> "FUEL"
 let () = serve (function
   | ["diff"; on; o; nn; n] ->
@@ -19,5 +23,12 @@ let () = serve (function
         (tgs (lines (bytes_of_hex o)) (lines (bytes_of_hex n)))
   | ["tgsok"; o; n] -> string_of_bool (tgs_ok (lines (bytes_of_hex o)) (lines (bytes_of_hex n)))
   | ["holds"; o; n] -> string_of_bool (c08_holds_on (bytes_of_hex o) (bytes_of_hex n))
+  | ["patch"; on; nn; out; o; n] ->
+      let on = bytes_of_hex on and nn = bytes_of_hex nn and out = bytes_of_hex out in
+      let lo = lines (bytes_of_hex o) and ln = lines (bytes_of_hex n) in
+      string_of_bool (patch_bytes on nn out lo = Some ln && unpatch_bytes on nn out ln = Some lo)
+  | ["linesgo"; t] ->
+      show_res (fun ls -> String.concat " " ("L" :: string_of_int (List.length ls) :: List.map hex_of_bytes ls))
+        (lines_go (bytes_of_hex t))
   | ["consts"] -> Printf.sprintf "C %d %s" (int_of_nat ctxC) (hex_of_bytes no_newline_msg)
   | _ -> "BAD-REQUEST")
